@@ -73,6 +73,59 @@ pub fn same_stream(a: &RecH, b: &RecH) -> bool {
     ok
 }
 
+/// The same recording with 16 words and a loop-free comparison, for harnesses whose code under test has
+/// input-dependent loops (the harness-wide unwind bound can then follow the input length, not `HW`).
+pub const HS: usize = 16;
+pub struct RecS {
+    pub buf: [u64; HS],
+    pub n: usize,
+}
+impl RecS {
+    fn word(&mut self, w: u64) {
+        if self.n < HS {
+            self.buf[self.n] = w;
+        }
+        self.n += 1;
+    }
+}
+impl Hasher for RecS {
+    fn finish(&self) -> u64 {
+        self.n as u64
+    }
+    fn write(&mut self, bytes: &[u8]) {
+        let mut i = 0;
+        while i < bytes.len() {
+            self.word(bytes[i] as u64 | 0x100);
+            i += 1;
+        }
+    }
+    fn write_u8(&mut self, i: u8) { self.word(i as u64) }
+    fn write_u16(&mut self, i: u16) { self.word(i as u64) }
+    fn write_u32(&mut self, i: u32) { self.word(i as u64) }
+    fn write_u64(&mut self, i: u64) { self.word(i) }
+    fn write_usize(&mut self, i: usize) { self.word(i as u64) }
+    fn write_i8(&mut self, i: i8) { self.word(i as u64) }
+    fn write_i16(&mut self, i: i16) { self.word(i as u64) }
+    fn write_i32(&mut self, i: i32) { self.word(i as u64) }
+    fn write_i64(&mut self, i: i64) { self.word(i as u64) }
+    fn write_isize(&mut self, i: isize) { self.word(i as u64) }
+}
+pub fn stream_s<T: Hash>(v: &T) -> RecS {
+    let mut h = RecS { buf: [0; HS], n: 0 };
+    v.hash(&mut h);
+    assert!(h.n <= HS, "hash stream longer than the recording buffer (harness bound)");
+    h
+}
+pub fn same_stream_s(a: &RecS, b: &RecS) -> bool {
+    if a.n != b.n {
+        return false;
+    }
+    let mut ok = true;
+    unroll10!(I, { if I < a.n && a.buf[I] != b.buf[I] { ok = false; } });
+    unroll6!(I, { if I + 10 < a.n && a.buf[I + 10] != b.buf[I + 10] { ok = false; } });
+    ok
+}
+
 type S1<const I: usize> = Skipped<W<I>, Sx, 1>;
 fn sk<const I: usize>() -> (S1<I>, u8, u8) {
     let (m, s) = (nd::u8(), nd::u8());
@@ -293,6 +346,56 @@ macro_rules! reparse {
         }
     };
 }
+/// Rule structs over real leaves (`"a" ~ "b"?` with a space-skipping skip node), for results obtained
+/// through different sub-ranges of one input object.
+pub mod leafrules {
+    use super::*;
+    type Inner<'i, const S: usize> = Seq2<Skipped<Str<A>, Ws, S>, Skipped<Option<Str<B>>, Ws, S>>;
+    pest_typed::normal_rule!(nr, "normal rule over real leaves", R, R::X, Inner<'i, INHERITED>, Ws, false);
+    pest_typed::atomic_rule!(ar, "atomic rule over real leaves", R, R::X, Inner<'i, 0>);
+}
+/// The same rule matched on the same bytes of one input object, once reached through `Position(s, p)` and
+/// once through the sub-range `Span(s, p, e)`: when both stop at the same offset the two results are
+/// structurally identical, so they are `==` and feed equal hash streams; and whatever the two results
+/// are, `==` implies equal hash streams.
+macro_rules! sub_ranges {
+    ($fname:ident, $ty:ty) => {
+        fn $fname() {
+            let buf = nd::ascii_buf::<4>(b"ab ");
+            let s = nd::as_str(&buf);
+            let (p, e) = (nd::usize(), nd::usize());
+            nd::assume(p <= e && e <= 4);
+            // one tracker per parse, created from that parse's input exactly as `try_parse_partial` does
+            let in1 = Position::new(s, p).unwrap().as_input();
+            let mut tr = Tracker::<R>::new(in1);
+            let mut st1 = fresh_stack(s, 0);
+            let r1 = <$ty as TypedNode<R>>::try_parse_partial_with(in1, &mut st1, &mut tr);
+            let in2 = Span::new(s, p, e).unwrap().as_input();
+            let mut tr2 = Tracker::<R>::new(in2);
+            let mut st2 = fresh_stack(s, 0);
+            let r2 = <$ty as TypedNode<R>>::try_parse_partial_with(in2, &mut st2, &mut tr2);
+            if let (Some((i1, v1)), Some((i2, v2))) = (&r1, &r2) {
+                let same_end = pest_typed::Input::byte_offset(i1) == pest_typed::Input::byte_offset(i2);
+                if same_end {
+                    assert!(v1 == v2, "same bytes of one input object matched through Position and through a Span sub-range: results differ");
+                }
+                if v1 == v2 {
+                    assert!(same_stream_s(&stream_s(v1), &stream_s(v2)), "equal results (Position input vs Span sub-range input) hash differently");
+                }
+                cover!(same_end && e < 4 && pest_typed::Input::byte_offset(i1) > p, "non-empty match through a sub-range that ends before the input does");
+            }
+            core::mem::forget(st1);
+            core::mem::forget(st2);
+            core::mem::forget(tr);
+            core::mem::forget(tr2);
+            core::mem::forget(r1);
+            core::mem::forget(r2);
+        }
+    };
+}
+sub_ranges!(sub_ranges_normal, leafrules::nr<'_, 1>);
+sub_ranges!(sub_ranges_atomic, leafrules::ar<'_, 1>);
+
 reparse!(reparse_normal, rules::normal<'_, 1>);
 reparse!(reparse_silent, rules::silent<'_, 1>);
 reparse!(reparse_atomic, rules::atomic<'_, 1>);
@@ -310,6 +413,8 @@ harnesses! {
     #[kani::unwind(42)] fn c18_rule_struct() [] : "Q|normal / non-atomic / boxed rule structs built from public fields: == exactly (content and span), equal values hash equally" { rule_struct_eq_hash() }
     #[kani::unwind(6)] fn c18_insens_eq() [] : "Q|Insens: == exactly on the matched text (spellings differing in case only are different), clone == original" { insens_eq() }
     #[kani::unwind(42)] fn c18_insens_range() [] : "Q|Insens: == on the matched text, equal spellings at different offsets hash equally; CharRange == / hash on the character" { insens_eq_hash() }
+    #[kani::unwind(7)] fn c18_subrange_normal() [T0] : "Q|normal rule over real leaves: result through Position(s,p) vs through the sub-range Span(s,p,e) of the same input object: same end => == and equal hash stream; == => equal hash stream; 4 bytes over {a,b,' '}" { sub_ranges_normal() }
+    #[kani::unwind(7)] fn c18_subrange_atomic() [T0] : "Q|atomic rule over real leaves: same" { sub_ranges_atomic() }
     #[kani::unwind(42)] fn c18_reparse_normal() [T0 S] : "Q|normal rule: parsing the same input again (used tracker, unrelated parse in between) gives an equal tree with an equal hash stream; clone; abstract children, 3 positions" { reparse_normal() }
     #[kani::unwind(42)] fn c18_reparse_silent() [T0 S] : "Q|silent rule: same" { reparse_silent() }
     #[kani::unwind(42)] fn c18_reparse_atomic() [T0 S] : "Q|atomic rule: same" { reparse_atomic() }
